@@ -68,7 +68,7 @@ def _lookup(number):
         return (
             ''.join(n[0] for n in info[:-1]),
             info[-2][1]['o'].replace('%', '"'))
-    except IndexError:
+    except (IndexError, KeyError):
         raise InvalidComponent()
 
 
